@@ -69,12 +69,17 @@ def run_trace(tid, shape, events):
 
 def make_object(kind, shape, joy):
     obj = None
+    # the same object can be asked for in several ways: positional / keyword arguments, documented defaults left out,
+    # whole seconds as ints
+    p = shape["period"]
+    secs = p // 64 if p % 64 == 0 and p > 0 else p / 64.0
     if kind == "toggle":
-        obj = Toggle(joy, 3) if shape["period"] == 0 else Toggle(joy, 3, shape["period"] / 64.0)
+        obj = Toggle(joy, 3) if p == 0 else Toggle(joy, 3, secs) if p % 2 else Toggle(joy, 3, debounce_period=secs)
     elif kind == "bd":
-        obj = ButtonDebouncer(joy, 3, period=shape["period"] / 64.0)
+        obj = ButtonDebouncer(joy, 3) if p == 32 else ButtonDebouncer(joy, 3, period=secs) if p % 2 else ButtonDebouncer(joy, 3, secs)
     elif kind == "pf":
-        obj = PeriodicFilter(shape["period"] / 64.0, bypass_level=shape["bypass"])
+        b = shape["bypass"]
+        obj = PeriodicFilter(secs) if b == 30 and p % 2 else PeriodicFilter(secs, b) if p % 3 == 0 else PeriodicFilter(secs, bypass_level=b)
     elif kind == "wd":
         obj = SimpleWatchdog(shape["timeout"] / 1e6)
     return obj
@@ -158,7 +163,7 @@ def random_events(rng, shape):
                 evs.append({"e": "bdset", "p": rng.choice([1, 2, 3, 8, 32, shape["period"]])})
             evs.append({"e": "bget", "level": held})
         elif kind == "pf":
-            evs.append({"e": "rec", "lvl": rng.choice([10, 20, 20, 30, 40, 50])})
+            evs.append({"e": "rec", "lvl": rng.choice([0, 5, 10, 20, 20, 30, 40, 50])})
         else:
             r = rng.random()
             evs.append({"e": "reset"} if r < 0.2 else {"e": "expired"} if r < 0.45 else {"e": "epoch"} if r < 0.65
@@ -168,8 +173,9 @@ def random_events(rng, shape):
 
 def gen_shape(rng):
     kind = rng.choice(["toggle", "toggle", "bd", "pf", "wd"])
-    period = rng.choice([0, 2, 3, 8, 32]) if kind == "toggle" else rng.choice([1, 2, 3, 8, 32])
-    return {"kind": kind, "period": period, "bypass": rng.choice([20, 30, 40]), "timeout": rng.choice([5000, 20000, 46875])}
+    period = rng.choice([0, 2, 3, 8, 32, 64]) if kind == "toggle" else rng.choice([1, 2, 3, 8, 32, 64])
+    return {"kind": kind, "period": period, "bypass": rng.choice([0, 10, 20, 30, 30, 40, 50]),
+            "timeout": rng.choice([5000, 20000, 46875])}
 
 
 def main():
